@@ -140,6 +140,8 @@ def ap_replay(args):
     warnings.simplefilter('ignore')
     p = {'pos': hist[0]['arg'], 'shift': 0, 'size': 1, 'theta': 1}
     ap = ap_build(cls, p)
+    caller_arr = np.array(AP_POS[p['pos']], dtype=float)      # the caller's own float64 array, handed to the setter below
+    ap.positions = caller_arr
     out = []
     path = []
     for ev in hist[1:]:
@@ -149,7 +151,11 @@ def ap_replay(args):
         try:
             if op == 'set_pos':
                 p.update(pos=arg, shift=0)
-                ap.positions = AP_POS[arg]
+                caller_arr = np.array(AP_POS[arg], dtype=float)
+                ap.positions = caller_arr
+            elif op == 'caller_mutates':
+                caller_arr += 3.25                 # must not reach the aperture
+                caller_arr = caller_arr.copy()
             elif op == 'iadd_pos':
                 p['shift'] += 1
                 ap.positions += AP_DELTA
